@@ -77,7 +77,9 @@ def strategy(tier):
         return st.fixed_dictionaries({"spec": st.just(spec), "populate": populate, "mask": mask, "fmt": st.sampled_from(trees.FORMATS + ("tree", "tree")),
                                       "virtual": st.booleans(), "skip": st.lists(st.integers(0, 40), max_size=3)})
     flags = st.lists(st.sampled_from([True, True, False, None]), min_size=5, max_size=12)
-    return st.tuples(worlds.schema_spec(tier), flags).map(lambda t: _mark(t[0], t[1], [0])).flatmap(hist)
+    # every schema also carries C02's fixed extras: a list of configurations and a config type with secret / bytes /
+    # digest fields and with keys that are names of Config methods
+    return st.tuples(worlds.schema_spec(tier).map(c02._augment), flags).map(lambda t: _mark(t[0], t[1], [0])).flatmap(hist)
 
 
 def _is_sensitive(node):
@@ -119,7 +121,7 @@ def _expect(world, cfg, plain, mask, R, node=None, where="root"):
             continue
         if kind == "method":
             continue
-        value = getattr(cfg, key)
+        value = cfg[key]  # item access: a key may be the name of a Config method
         if kind == "virtual":
             if _is_sensitive(child) and mask is not None:
                 out[key] = _masked(value, mask)
@@ -153,7 +155,7 @@ def _sensitive_strings(world, cfg, node=None):
         kind = child["kind"]
         if kind in ("virtual", "method"):
             continue
-        v = getattr(cfg, child["key"])
+        v = cfg[child["key"]]
         if kind in ("schema", "configtype") and isinstance(v, cc.Config):
             yield from _sensitive_strings(world, v, child)
         elif kind == "schemalist" and v:
